@@ -25,6 +25,10 @@ type clientCase struct {
 	Ans  json.RawMessage `json:"ans"`
 	T    int64           `json:"t"`
 	N    int             `json:"n,omitempty"` // the request is sent this many times for one subscriber (0: once)
+	// Ans2: what the peer answers from the second request on that it receives in this case (a client that asks again -
+	// because the first answer carried a transient failure result code, say - gets a different answer)
+	Ans2 json.RawMessage `json:"ans2,omitempty"`
+	RC   uint32          `json:"rc,omitempty"` // with Ans2: the Result-Code of the first answer
 }
 
 func genClient(t *rapid.T) clientCase {
@@ -39,6 +43,12 @@ func genClient(t *rapid.T) clientCase {
 	diamgen.FillDiam(t, an.Elem(), 0, &st)
 	c.Req, _ = json.Marshal(rq.Interface())
 	c.Ans, _ = json.Marshal(an.Interface())
+	if rapid.IntRange(0, 2).Draw(t, "secondAnswer") == 0 {
+		an2 := reflect.New(ansT)
+		diamgen.FillDiam(t, an2.Elem(), 0, &st)
+		c.Ans2, _ = json.Marshal(an2.Interface())
+		c.RC = rapid.SampledFrom([]uint32{3004, 3004, 3002, 4002, 4010, 5012, 2002}).Draw(t, "firstResultCode")
+	}
 	return c
 }
 
@@ -68,7 +78,7 @@ func clientOnce(c clientCase, supi string) *h.Verdict {
 	sub := &cdt.SubscriptionId{SubscriptionIdType: cdt.END_USER_IMSI, SubscriptionIdData: datatype.UTF8String(supi[5:])}
 	p := &subPlan{}
 	var st diamgen.FillStats
-	var sentReq, gotReq, sentAns, gotAns reflect.Value
+	var sentReq, gotReq, sentAns, gotAns, second reflect.Value
 	var err error
 	switch c.Kind {
 	case "SUR":
@@ -81,6 +91,15 @@ func clientOnce(c clientCase, supi string) *h.Verdict {
 		diamgen.SetTimes(reflect.ValueOf(&sua).Elem(), c.T)
 		sur.SubscriptionId = sub
 		p.cannedSUA = &sua
+		var sua2 cdt.ServiceUsageResponse
+		if len(c.Ans2) > 0 && json.Unmarshal(c.Ans2, &sua2) == nil {
+			diamgen.SetTimes(reflect.ValueOf(&sua2).Elem(), c.T)
+			if f := reflect.ValueOf(&sua).Elem().FieldByName("ResultCode"); f.IsValid() && f.CanSet() {
+				f.SetUint(uint64(c.RC))
+			}
+			p.cannedSUA2 = &sua2
+			second = reflect.ValueOf(sua2)
+		}
 		plansMu.Lock()
 		plans[supi[5:]] = p
 		plansMu.Unlock()
@@ -107,6 +126,13 @@ func clientOnce(c clientCase, supi string) *h.Verdict {
 		diamgen.SetTimes(reflect.ValueOf(&cca).Elem(), c.T)
 		ccr.SubscriptionId = sub
 		p.cannedCCA = &cca
+		var cca2 cdt.AccountDebitResponse
+		if len(c.Ans2) > 0 && json.Unmarshal(c.Ans2, &cca2) == nil {
+			diamgen.SetTimes(reflect.ValueOf(&cca2).Elem(), c.T)
+			cca.ResultCode = datatype.Unsigned32(c.RC)
+			p.cannedCCA2 = &cca2
+			second = reflect.ValueOf(cca2)
+		}
 		plansMu.Lock()
 		plans[supi[5:]] = p
 		plansMu.Unlock()
@@ -137,7 +163,17 @@ func clientOnce(c clientCase, supi string) *h.Verdict {
 		return v.Failf("client/answer-not-returned/"+c.Kind, "the peer answered the %s at once, the CHF's client returned error %v", c.Kind, err)
 	}
 	if d := diamgen.DiffValues(sentAns, gotAns, c.Kind[:2]+"A"); d != "" {
-		return v.Failf("client/answer-field-differs/"+sigTail(d), "through the CHF's client: %s", d)
+		// a client that asked again may return the second answer - as the peer sent it, not a mixture of the two
+		p.mu.Lock()
+		asked := p.nCanned
+		p.mu.Unlock()
+		if !(asked >= 2 && second.IsValid() && diamgen.DiffValues(second, gotAns, c.Kind[:2]+"A") == "") {
+			return v.Failf("client/answer-field-differs/"+sigTail(d), "through the CHF's client (the peer was asked %d times): %s", asked, d)
+		}
+		v.Label("client-asked-again")
+	}
+	if second.IsValid() {
+		v.Label("first-answer-with-failure-result-code-then-another-answer")
 	}
 	diamgen.CountFeatures(sentAns, &st)
 	diamgen.CountFeatures(sentReq, &st)
